@@ -3,6 +3,7 @@ package main
 import (
 	"fmt"
 	"math"
+	"sort"
 	"strings"
 
 	geom "github.com/twpayne/go-geom"
@@ -234,6 +235,17 @@ func genC16(r *Rng, e *Emitter, n int) {
 					ends = append(ends, (i-1)*s)
 				}
 				ends = append(ends, i*s)
+			}
+			if ncoord >= 2 && r.chance(1, 5) {
+				// as many ends as coordinates, the last one at the end of the array, the others anywhere
+				// before it in order (the flat constructor takes what it is given): still copied as they are
+				ends = make([]int, ncoord)
+				for i := range ends {
+					ends[i] = s * r.Intn(ncoord+1)
+				}
+				sort.Ints(ends)
+				ends[ncoord-1] = ncoord * s
+				e.tally("mpoint-ends-not-canonical")
 			}
 			ends, cpe := spareInts(r, ends)
 			a = &c16geom{kind, geom.NewMultiPointFlat(l, f, geom.NewMultiPointFlatOptionWithEnds(ends)).SetSRID(srid)}
